@@ -67,3 +67,24 @@ Definition zero_token : token := mkTok TEOF 0 0.
    so the model returns None there (a Panic site for its callers). *)
 Definition get_string (src : bytes) (t : token) : option bytes :=
   if Nat.leb (tpos t + tlen t) (length src) then Some (slice src (tpos t) (tlen t)) else None.
+
+(* Pratt parser vocabulary (src/parser.go): precedence levels and the names of the
+   prefix / infix parse functions that the rule table refers to. *)
+Inductive prec :=
+| PrecNone | PrecAssign | PrecLogical | PrecComparison | PrecAddition
+| PrecMultiplication | PrecPostfix | PrecUnary | PrecCall | PrecGroup.
+
+Definition prec_index (p : prec) : nat :=
+  match p with
+  | PrecNone => 0 | PrecAssign => 1 | PrecLogical => 2 | PrecComparison => 3
+  | PrecAddition => 4 | PrecMultiplication => 5 | PrecPostfix => 6 | PrecUnary => 7
+  | PrecCall => 8 | PrecGroup => 9
+  end%nat.
+
+Inductive prefix_fn :=
+| PfNone | PfLiteral | PfIdentifier | PfArray | PfGroup | PfUnary | PfRegex | PfMatch | PfObject.
+
+Inductive infix_fn :=
+| IfNone | IfComputedMember | IfMember | IfCall | IfBinary | IfAssign | IfPostfix | IfIs.
+
+Record parse_rule := mkRule { rprec : prec; rprefix : prefix_fn; rinfix : infix_fn }.
